@@ -19,6 +19,8 @@ let () = each_line (fun l ->
     expect t "D"; let d = (match peek t with Some "SKIP" -> ignore (word t); None | _ -> Some (read_ta t)) in
     expect t "X"; let x = read_ta t in let pmx = read_pm t in
     expect t "XB"; let xb = read_ta t in let pmb = read_pm t in
+    expect t "XR"; let xr = read_ta t in let pmxr = read_pm t in
+    expect t "XBR"; let xbr = read_ta t in let pmbr = read_pm t in
     expect t "I"; let ia = read_ta t in let ib = read_ta t in
     let fails = ref [] and drift = ref [] in
     let gate n b = if not b then fails := n :: !fails in
@@ -34,6 +36,10 @@ let () = each_line (fun l ->
     gate "isectbu_lang" (isect_gate a b xb);
     gate "isectbu_names" (names_isect pmb a b xb);
     dr "isectbu_struct" (ta_same xb (isect_bu_model pmb (n_of_int 1000000) a b));
+    (* the product map is documented as an OUT parameter: handing in a pre-filled one is outside the contract (the top-down
+       Intersection indeed does not expand pairs it finds in the map). Observed, reported as drift for IntersectionBU only. *)
+    ignore xr; ignore pmxr;
+    dr "isectbu_reused_map" (isect_gate a b xbr && names_isect pmbr a b xbr && List.for_all (fun e -> List.mem e pmbr) pmb);
     gate "operand_changed" (ta_same a ia && ta_same b ib);
     (if !fails = [] then "OK" else "FAIL " ^ String.concat "," (List.rev !fails))
     ^ (if !drift = [] then "" else " DRIFT " ^ String.concat "," (List.rev !drift))
